@@ -88,8 +88,9 @@ static std::string seqText(const std::vector<Ins> &seq) {
     return s;
 }
 // all sequences of <= maxLen distinct pairs over nv vertices with all value assignments
-// withDuplicate: additionally every such sequence followed by ONE forced re-insertion of a pair it already
-// holds (same value; for undirected graphs under both namings of the pair) - a graph with a parallel edge
+// withDuplicate: additionally every such sequence of fewer than maxLen entries followed by ONE forced re-insertion
+// of a pair it already holds (same value; for undirected graphs under both namings of the pair) - a graph with a
+// parallel edge
 template <class G, class F> void forAllSequences(unsigned nv, int maxLen, int nValues, F f, bool withDuplicate = false) {
     using T = Tr<G>;
     std::vector<std::pair<unsigned, unsigned>> pairs;
@@ -99,7 +100,7 @@ template <class G, class F> void forAllSequences(unsigned nv, int maxLen, int nV
     std::set<std::pair<unsigned, unsigned>> used;
     std::function<void()> rec = [&]() {
         f(seq);
-        if (withDuplicate && !seq.empty()) {
+        if (withDuplicate && !seq.empty() && (int)seq.size() < maxLen) {
             std::vector<Ins> base = seq;
             for (auto &e : base)
                 for (int swap = 0; swap < ((!T::directed && e.i != e.j) ? 2 : 1); ++swap) {
